@@ -1,0 +1,56 @@
+//go:build verif
+
+package followreader
+
+// Verification hooks (build tag `verif` only; nothing here is compiled into a
+// normal build). They let a test harness own the notification schedule of a
+// NotifyFollowReader: the reader is built by the real constructor (same
+// channels, same watcher goroutine, same event->signal mapping), then the
+// kernel watch is removed so that the only events the watcher goroutine ever
+// sees are the ones the harness injects into watcher.Events.
+
+import (
+	"path"
+
+	"github.com/fsnotify/fsnotify"
+)
+
+// VerifNewNotifyInjected is NewNotify followed by removal of the inotify
+// watch on the directory: no file-system activity wakes the reader any more.
+func VerifNewNotifyInjected(filename string, reopen bool) (*NotifyFollowReader, error) {
+	r, err := NewNotify(filename, reopen)
+	if err != nil {
+		return nil, err
+	}
+	if err := r.watcher.Remove(path.Dir(filename)); err != nil {
+		r.Close()
+		return nil, err
+	}
+	return r, nil
+}
+
+// VerifInjectWrite, VerifInjectCreate and VerifInjectRemove hand one fsnotify
+// event of that kind for the followed path to the watcher goroutine started
+// by NewNotify and return after that goroutine has finished processing it (a
+// second, non-matching event is used as a barrier: the goroutine handles
+// events one at a time). They report false when the watcher is already closed.
+func (s *NotifyFollowReader) VerifInjectWrite() bool  { return s.verifInject(fsnotify.Write) }
+func (s *NotifyFollowReader) VerifInjectCreate() bool { return s.verifInject(fsnotify.Create) }
+func (s *NotifyFollowReader) VerifInjectRemove() bool { return s.verifInject(fsnotify.Remove) }
+
+func (s *NotifyFollowReader) verifInject(op fsnotify.Op) (delivered bool) {
+	defer func() {
+		if recover() != nil { // send on the closed Events channel: reader was closed
+			delivered = false
+		}
+	}()
+	s.watcher.Events <- fsnotify.Event{Name: s.filename, Op: op}
+	s.watcher.Events <- fsnotify.Event{Name: s.filename + ".verif-barrier", Op: fsnotify.Chmod}
+	return true
+}
+
+// VerifPending reports how many signals are buffered and not yet consumed by
+// Read (each is 0 or 1).
+func (s *NotifyFollowReader) VerifPending() (write, del int) {
+	return len(s.eventWrite), len(s.eventDelete)
+}
